@@ -16,7 +16,6 @@ var rebaseTagField = map[string]string{
 	"<5>": "MicroOrganism", "<6>": "Source", "<7>": "CommercialAvailability", "<8>": "References",
 }
 
-
 func ruleC16(c *Ctx) {
 	c.Decided = []string{
 		"FIELDMAP: tags <1>..<8> each handled, each stores line[3:] into the field the format assigns; the entry is stored under enzyme.Name in the <8> case and the accumulator reset right after",
@@ -278,12 +277,12 @@ func ruleC16(c *Ctx) {
 			v, e := rtb.T(r.Results[0]), rtb.T(r.Results[1])
 			pc := pathCond(rtb, rd.Blocks[0], r.Block()).String()
 			if e.Op == "const" {
-				if v.String() == "call[poly/io/rebase.Parse](extract[0](call[io/ioutil.ReadFile](param[0])))" && strings.Contains(pc, "!(binop[!=](const[nil:error]") {
+				if v.String() == "call[poly/io/rebase.Parse](extract[0](call[os.ReadFile](param[0])))" && strings.Contains(pc, "!(binop[!=](const[nil:error]") {
 					good = true
 				} else {
 					why = append(why, "success return is "+short(v.String()))
 				}
-			} else if e.String() != "extract[1](call[io/ioutil.ReadFile](param[0]))" {
+			} else if e.String() != "extract[1](call[os.ReadFile](param[0]))" {
 				why = append(why, "error return does not propagate the read error")
 				good = false
 			}
